@@ -1,8 +1,1456 @@
-//! Encryption searches: C11 C13 C18
+//! Encryption searches: C11 (signcryption), C13 (time lock), C18 (independent implementation).
+//!
+//! The first half of this file is an independent reference implementation of the documented
+//! constructions (signcryption, time-lock, PoK challenge, ElGamal proof transcript) on the
+//! pure-Rust backend (`bls12_381_plus`), hard-coding every salt, label and framing rule.
+//! The second half is the macro expanded per implementation by `search.rs`.
+#![allow(dead_code)]
+use crate::refs::{dec_g1, dec_g2, fs, hkdf_scalar, ref_hash_g1, ref_hash_g2, sha256, xof, RScalar};
+use bls12_381_plus as r;
+use bls12_381_plus::group::{Curve, Group, GroupEncoding};
+
+pub const ENC_SALT_SC: &[u8] = b"SIGNCRYPT_BLS12381_XOF:HKDF-SHA2-256_";
+pub const ENC_SALT_TL: &[u8] = b"TIMELOCK_BLS12381_XOF:HKDF-SHA2-256_";
+pub const ENC_SALT_POK: &[u8] = b"BLS_POK__BLS12381_XOF:HKDF-SHA2-256_";
+pub const ENC_SALT_EG: &[u8] = b"ELGAMAL_BLS12381_XOF:HKDF-SHA2-256_";
+
+/// signature tag per implementation (true = signatures in G1) and scheme (0 basic, 1 aug, 2 pop)
+pub fn enc_sig_tag(impl_g1: bool, scheme: u8) -> &'static [u8] {
+    match (impl_g1, scheme) {
+        (true, 0) => b"BLS_SIG_BLS12381G1_XMD:SHA-256_SSWU_RO_NUL_",
+        (true, 1) => b"BLS_SIG_BLS12381G1_XMD:SHA-256_SSWU_RO_AUG_",
+        (true, _) => b"BLS_SIG_BLS12381G1_XMD:SHA-256_SSWU_RO_POP_",
+        (false, 0) => b"BLS_SIG_BLS12381G2_XMD:SHA-256_SSWU_RO_NUL_",
+        (false, 1) => b"BLS_SIG_BLS12381G2_XMD:SHA-256_SSWU_RO_AUG_",
+        (false, _) => b"BLS_SIG_BLS12381G2_XMD:SHA-256_SSWU_RO_POP_",
+    }
+}
+
+/// tag of the ElGamal message generator: names the PUBLIC-KEY group
+pub fn enc_eg_tag(impl_g1: bool) -> &'static [u8] {
+    if impl_g1 {
+        b"BLS_ELGAMAL_BLS12381G2_XMD:SHA-256_SSWU_RO_NUL_"
+    } else {
+        b"BLS_ELGAMAL_BLS12381G1_XMD:SHA-256_SSWU_RO_NUL_"
+    }
+}
+
+/// A point of either source group
+#[derive(Clone, Copy, Debug, PartialEq)]
+pub enum EncPt {
+    A(r::G1Projective),
+    B(r::G2Projective),
+}
+
+impl EncPt {
+    pub fn generator(in_g1: bool) -> Self {
+        if in_g1 { EncPt::A(<r::G1Projective as Group>::generator()) } else { EncPt::B(<r::G2Projective as Group>::generator()) }
+    }
+    pub fn identity(in_g1: bool) -> Self {
+        if in_g1 { EncPt::A(<r::G1Projective as Group>::identity()) } else { EncPt::B(<r::G2Projective as Group>::identity()) }
+    }
+    pub fn hash(in_g1: bool, msg: &[u8], dst: &[u8]) -> Self {
+        if in_g1 { EncPt::A(ref_hash_g1(msg, dst)) } else { EncPt::B(ref_hash_g2(msg, dst)) }
+    }
+    /// checked decoding (on curve, in the subgroup, canonical)
+    pub fn decode(in_g1: bool, b: &[u8]) -> Option<Self> {
+        if in_g1 {
+            dec_g1(b).map(|p| EncPt::A(r::G1Projective::from(p)))
+        } else {
+            dec_g2(b).map(|p| EncPt::B(r::G2Projective::from(p)))
+        }
+    }
+    pub fn encode(&self) -> Vec<u8> {
+        match self {
+            EncPt::A(p) => p.to_affine().to_compressed().to_vec(),
+            EncPt::B(p) => p.to_affine().to_compressed().to_vec(),
+        }
+    }
+    pub fn mul(&self, s: &RScalar) -> Self {
+        match self {
+            EncPt::A(p) => EncPt::A(p * s),
+            EncPt::B(p) => EncPt::B(p * s),
+        }
+    }
+    pub fn add(&self, o: &Self) -> Self {
+        match (self, o) {
+            (EncPt::A(p), EncPt::A(q)) => EncPt::A(p + q),
+            (EncPt::B(p), EncPt::B(q)) => EncPt::B(p + q),
+            _ => panic!("EncPt::add: mixed groups"),
+        }
+    }
+    pub fn neg(&self) -> Self {
+        match self {
+            EncPt::A(p) => EncPt::A(-p),
+            EncPt::B(p) => EncPt::B(-p),
+        }
+    }
+    pub fn is_identity(&self) -> bool {
+        match self {
+            EncPt::A(p) => bool::from(p.is_identity()),
+            EncPt::B(p) => bool::from(p.is_identity()),
+        }
+    }
+}
+
+/// e(a, b) with one argument in each source group (order of the arguments irrelevant)
+pub fn enc_pairing(a: &EncPt, b: &EncPt) -> r::Gt {
+    match (a, b) {
+        (EncPt::A(p), EncPt::B(q)) | (EncPt::B(q), EncPt::A(p)) => r::pairing(&p.to_affine(), &q.to_affine()),
+        _ => panic!("enc_pairing: both arguments in the same group"),
+    }
+}
+
+pub fn enc_gt_bytes(k: &r::Gt) -> Vec<u8> {
+    GroupEncoding::to_bytes(k).as_ref().to_vec()
+}
+
+pub fn enc_xor(a: &[u8], b: &[u8]) -> Vec<u8> {
+    assert_eq!(a.len(), b.len());
+    a.iter().zip(b.iter()).map(|(x, y)| x ^ y).collect()
+}
+
+/// unsigned LEB128
+pub fn enc_leb128(mut n: u64) -> Vec<u8> {
+    let mut out = vec![];
+    loop {
+        let b = (n & 0x7f) as u8;
+        n >>= 7;
+        if n == 0 {
+            out.push(b);
+            return out;
+        }
+        out.push(b | 0x80);
+    }
+}
+
+/// (value, bytes used); at most 10 bytes
+pub fn enc_unleb128(b: &[u8]) -> Option<(u64, usize)> {
+    let mut x = 0u64;
+    for i in 0..10 {
+        let c = *b.get(i)?;
+        let part = (c & 0x7f) as u64;
+        if i == 9 && part > 1 {
+            return None;
+        }
+        x |= part << (7 * i);
+        if c < 0x80 {
+            return Some((x, i + 1));
+        }
+    }
+    None
+}
+
+/// LEB128(len) || msg || zero padding up to 32 bytes
+pub fn enc_frame(msg: &[u8]) -> Vec<u8> {
+    let mut f = enc_leb128(msg.len() as u64);
+    f.extend_from_slice(msg);
+    while f.len() < 32 {
+        f.push(0);
+    }
+    f
+}
+
+pub fn enc_unframe(p: &[u8]) -> Option<Vec<u8>> {
+    let (len, used) = enc_unleb128(p)?;
+    let len = usize::try_from(len).ok()?;
+    if len > p.len() - used {
+        return None;
+    }
+    Some(p[used..used + len].to_vec())
+}
+
+// ------------------------------------------------------------------ signcryption
+
+/// (u, v, w) as bytes; `seed` plays the role of the 32 random bytes
+pub fn enc_sc_seal(impl_g1: bool, pk: &[u8], msg: &[u8], scheme: u8, seed: &[u8]) -> Option<(Vec<u8>, Vec<u8>, Vec<u8>)> {
+    let pkg = !impl_g1;
+    let pkp = EncPt::decode(pkg, pk)?;
+    let rr = hkdf_scalar(ENC_SALT_SC, seed);
+    let u = EncPt::generator(pkg).mul(&rr);
+    let frame = enc_frame(msg);
+    let mask = xof(&pkp.mul(&rr).encode(), frame.len());
+    let v = enc_xor(&frame, &mask);
+    let mut t = u.encode();
+    t.extend_from_slice(&v);
+    let w = EncPt::hash(impl_g1, &t, enc_sig_tag(impl_g1, scheme)).mul(&rr);
+    Some((u.encode(), v, w.encode()))
+}
+
+pub fn enc_sc_valid(impl_g1: bool, u: &[u8], v: &[u8], w: &[u8], scheme: u8) -> bool {
+    let pkg = !impl_g1;
+    let (Some(up), Some(wp)) = (EncPt::decode(pkg, u), EncPt::decode(impl_g1, w)) else { return false };
+    if up.is_identity() || wp.is_identity() {
+        return false;
+    }
+    let mut t = u.to_vec();
+    t.extend_from_slice(v);
+    let h = EncPt::hash(impl_g1, &t, enc_sig_tag(impl_g1, scheme));
+    enc_pairing(&wp, &EncPt::generator(pkg)) == enc_pairing(&h, &up)
+}
+
+/// (message, whole unmasked payload)
+pub fn enc_sc_open(impl_g1: bool, sk: &RScalar, u: &[u8], v: &[u8], w: &[u8], scheme: u8) -> Option<(Vec<u8>, Vec<u8>)> {
+    if !enc_sc_valid(impl_g1, u, v, w, scheme) {
+        return None;
+    }
+    let up = EncPt::decode(!impl_g1, u)?;
+    let payload = enc_xor(v, &xof(&up.mul(sk).encode(), v.len()));
+    let m = enc_unframe(&payload)?;
+    Some((m, payload))
+}
+
+/// serde_bare layout of the signcryption ciphertext
+pub fn enc_sc_wire(u: &[u8], v: &[u8], w: &[u8], scheme: u8) -> Vec<u8> {
+    let mut o = u.to_vec();
+    o.extend_from_slice(&enc_leb128(v.len() as u64));
+    o.extend_from_slice(v);
+    o.extend_from_slice(w);
+    o.push(scheme);
+    o
+}
+
+// ------------------------------------------------------------------ time lock
+
+pub fn enc_tl_seal_alpha(impl_g1: bool, pk: &[u8], msg: &[u8], id: &[u8], scheme: u8, alpha: &RScalar) -> Option<(Vec<u8>, Vec<u8>, Vec<u8>)> {
+    let pkg = !impl_g1;
+    let pkp = EncPt::decode(pkg, pk)?;
+    if pkp.is_identity() {
+        return None;
+    }
+    let al = alpha.to_le_bytes();
+    let mut ikm = al.to_vec();
+    ikm.extend_from_slice(&sha256(msg));
+    let rr = hkdf_scalar(ENC_SALT_TL, &ikm);
+    let u = EncPt::generator(pkg).mul(&rr);
+    let k = enc_pairing(&EncPt::hash(impl_g1, id, enc_sig_tag(impl_g1, scheme)), &pkp.mul(&rr));
+    let v = enc_xor(&sha256(&enc_gt_bytes(&k)), &al);
+    let frame = enc_frame(msg);
+    let w = enc_xor(&frame, &xof(&al, frame.len()));
+    Some((u.encode(), v, w))
+}
+
+pub fn enc_tl_seal(impl_g1: bool, pk: &[u8], msg: &[u8], id: &[u8], scheme: u8, seed: &[u8]) -> Option<(Vec<u8>, Vec<u8>, Vec<u8>)> {
+    enc_tl_seal_alpha(impl_g1, pk, msg, id, scheme, &hkdf_scalar(ENC_SALT_TL, seed))
+}
+
+/// the decryption key the construction documents: sk * H(id, tag) in the signature group
+pub fn enc_tl_key(impl_g1: bool, sk: &RScalar, id: &[u8], scheme: u8) -> Vec<u8> {
+    EncPt::hash(impl_g1, id, enc_sig_tag(impl_g1, scheme)).mul(sk).encode()
+}
+
+/// (message, alpha bytes (little endian), whole unmasked payload)
+pub fn enc_tl_open(impl_g1: bool, sig: &[u8], u: &[u8], v: &[u8], w: &[u8]) -> Option<(Vec<u8>, Vec<u8>, Vec<u8>)> {
+    let pkg = !impl_g1;
+    let sp = EncPt::decode(impl_g1, sig)?;
+    let up = EncPt::decode(pkg, u)?;
+    if sp.is_identity() || up.is_identity() || v.len() != 32 {
+        return None;
+    }
+    let k = enc_pairing(&sp, &up);
+    let al = enc_xor(v, &sha256(&enc_gt_bytes(&k)));
+    let payload = enc_xor(w, &xof(&al, w.len()));
+    let m = enc_unframe(&payload)?;
+    let mut ikm = al.clone();
+    ikm.extend_from_slice(&sha256(&m));
+    let rr = hkdf_scalar(ENC_SALT_TL, &ikm);
+    if EncPt::generator(pkg).mul(&rr) != up {
+        return None;
+    }
+    Some((m, al, payload))
+}
+
+/// serde_bare layout of the time-lock ciphertext
+pub fn enc_tl_wire(u: &[u8], v: &[u8], w: &[u8], scheme: u8) -> Vec<u8> {
+    let mut o = u.to_vec();
+    o.extend_from_slice(v);
+    o.extend_from_slice(&enc_leb128(w.len() as u64));
+    o.extend_from_slice(w);
+    o.push(scheme);
+    o
+}
+
+// ------------------------------------------------------------------ proof of knowledge
+
+pub fn enc_pok_y(u: &[u8], t: u64) -> RScalar {
+    let mut ikm = u.to_vec();
+    ikm.extend_from_slice(&t.to_le_bytes());
+    hkdf_scalar(ENC_SALT_POK, &ikm)
+}
+
+/// (u, v) of a timestamp proof for the signature `sk * H(msg, tag)` with commitment scalar x
+pub fn enc_pok_prove(impl_g1: bool, sk: &RScalar, msg: &[u8], scheme: u8, x: &RScalar, t: u64) -> (Vec<u8>, Vec<u8>) {
+    let a = EncPt::hash(impl_g1, msg, enc_sig_tag(impl_g1, scheme));
+    let u = a.mul(x);
+    let y = enc_pok_y(&u.encode(), t);
+    let v = a.mul(sk).mul(&(x + y)).neg();
+    (u.encode(), v.encode())
+}
+
+pub fn enc_pok_verify(impl_g1: bool, pk: &[u8], msg: &[u8], scheme: u8, u: &[u8], v: &[u8], t: u64) -> bool {
+    let pkg = !impl_g1;
+    let (Some(up), Some(vp), Some(pkp)) = (EncPt::decode(impl_g1, u), EncPt::decode(impl_g1, v), EncPt::decode(pkg, pk)) else { return false };
+    if up.is_identity() || vp.is_identity() || pkp.is_identity() {
+        return false;
+    }
+    let y = enc_pok_y(u, t);
+    let a = EncPt::hash(impl_g1, msg, enc_sig_tag(impl_g1, scheme));
+    enc_pairing(&vp.neg(), &EncPt::generator(pkg)) == enc_pairing(&up.add(&a.mul(&y)), &pkp)
+}
+
+// ------------------------------------------------------------------ ElGamal proof
+
+pub fn enc_eg_generator(impl_g1: bool) -> EncPt {
+    let pkg = !impl_g1;
+    EncPt::hash(pkg, &EncPt::generator(pkg).encode(), enc_eg_tag(impl_g1))
+}
+
+pub fn enc_eg_challenge(impl_g1: bool, pk: &[u8], c1: &[u8], c2: &[u8], r1: &[u8], r2: &[u8]) -> RScalar {
+    let pkg = !impl_g1;
+    let items: Vec<(Vec<u8>, Vec<u8>)> = vec![
+        (b"dst".to_vec(), ENC_SALT_EG.to_vec()),
+        (b"base point".to_vec(), EncPt::generator(pkg).encode()),
+        (b"pk".to_vec(), pk.to_vec()),
+        (b"generator".to_vec(), enc_eg_generator(impl_g1).encode()),
+        (b"c1".to_vec(), c1.to_vec()),
+        (b"c2".to_vec(), c2.to_vec()),
+        (b"r1".to_vec(), r1.to_vec()),
+        (b"r2".to_vec(), r2.to_vec()),
+    ];
+    fs(b"ElGamalProof", &items, b"challenge")
+}
+
+/// the challenge a verifier recomputes from the public components
+pub fn enc_eg_recompute(impl_g1: bool, pk: &[u8], c1: &[u8], c2: &[u8], zm: &RScalar, zb: &RScalar, c: &RScalar) -> Option<RScalar> {
+    let pkg = !impl_g1;
+    let (pkp, c1p, c2p) = (EncPt::decode(pkg, pk)?, EncPt::decode(pkg, c1)?, EncPt::decode(pkg, c2)?);
+    let nc = -*c;
+    let r1 = c1p.mul(&nc).add(&EncPt::generator(pkg).mul(zb));
+    let r2 = c2p.mul(&nc).add(&enc_eg_generator(impl_g1).mul(zm)).add(&pkp.mul(zb));
+    Some(enc_eg_challenge(impl_g1, pk, c1, c2, &r1.encode(), &r2.encode()))
+}
+
+/// (c1, c2, message_proof, blinder_proof, challenge) for message scalar m, blinder b, nonce rr
+pub fn enc_eg_prove(impl_g1: bool, pk: &[u8], m: &RScalar, b: &RScalar, rr: &RScalar) -> Option<(Vec<u8>, Vec<u8>, RScalar, RScalar, RScalar)> {
+    let pkg = !impl_g1;
+    let pkp = EncPt::decode(pkg, pk)?;
+    let h = enc_eg_generator(impl_g1);
+    let p = EncPt::generator(pkg);
+    let c1 = p.mul(b);
+    let c2 = pkp.mul(b).add(&h.mul(m));
+    let r1 = p.mul(rr);
+    let r2 = pkp.mul(rr).add(&h.mul(b));
+    let c = enc_eg_challenge(impl_g1, pk, &c1.encode(), &c2.encode(), &r1.encode(), &r2.encode());
+    Some((c1.encode(), c2.encode(), b + c * m, rr + c * b, c))
+}
+
+/// serde_bare layout of the ElGamal proof
+pub fn enc_eg_wire(c1: &[u8], c2: &[u8], zm: &RScalar, zb: &RScalar, c: &RScalar) -> Vec<u8> {
+    let mut o = c1.to_vec();
+    o.extend_from_slice(c2);
+    o.extend_from_slice(&zm.to_be_bytes());
+    o.extend_from_slice(&zb.to_be_bytes());
+    o.extend_from_slice(&c.to_be_bytes());
+    o
+}
+
+// =======================================================================================
+// The per-implementation part (expanded in `search::g1` and `search::g2`).
+// =======================================================================================
 macro_rules! search_enc {
     () => {
-        pub fn c11(_s: &mut Search, _rng: &mut Prng, _thorough: bool) {}
-        pub fn c13(_s: &mut Search, _rng: &mut Prng, _thorough: bool) {}
-        pub fn c18(_s: &mut Search, _rng: &mut Prng, _thorough: bool) {}
+        search_enc_helpers!();
+        search_enc_c11!();
+        search_enc_c13!();
+        search_enc_c18!();
+    };
+}
+
+macro_rules! search_enc_helpers {
+    () => {
+        use crate::search_enc::*;
+        pub fn enc_impl() -> &'static str {
+            if G1 { "g1" } else { "g2" }
+        }
+        pub fn enc_catch<T>(f: impl FnOnce() -> T) -> Result<T, ()> {
+            catch(std::panic::AssertUnwindSafe(f))
+        }
+        pub fn enc_opt(o: subtle::CtOption<Vec<u8>>) -> Option<Vec<u8>> {
+            Option::<Vec<u8>>::from(o)
+        }
+        pub fn enc_pk_pt(b: &[u8]) -> Option<<C as Pairing>::PublicKey> {
+            PublicKey::<C>::try_from(b).ok().map(|p| p.0)
+        }
+        pub fn enc_sig_pt(b: &[u8]) -> Option<<C as Pairing>::Signature> {
+            let mut repr = <<C as Pairing>::Signature as GroupEncoding>::Repr::default();
+            if repr.as_ref().len() != b.len() {
+                return None;
+            }
+            repr.as_mut().copy_from_slice(b);
+            Option::from(<<C as Pairing>::Signature as GroupEncoding>::from_bytes(&repr))
+        }
+        pub fn enc_pk_bytes(p: &<C as Pairing>::PublicKey) -> Vec<u8> {
+            p.to_bytes().as_ref().to_vec()
+        }
+        pub fn enc_sig_bytes(p: &<C as Pairing>::Signature) -> Vec<u8> {
+            p.to_bytes().as_ref().to_vec()
+        }
+        pub fn enc_wrap_sig(scheme: u8, p: <C as Pairing>::Signature) -> Signature<C> {
+            match scheme {
+                0 => Signature::Basic(p),
+                1 => Signature::MessageAugmentation(p),
+                _ => Signature::ProofOfPossession(p),
+            }
+        }
+        pub fn enc_lib_scalar(x: &RScalar) -> Scalar {
+            bsc(&sc_be(x))
+        }
+        pub fn enc_ref_scalar(x: &Scalar) -> RScalar {
+            sc_from_be(&bsc_be(x))
+        }
+        /// hex, or length + sha256 when long
+        pub fn enc_hx(b: &[u8]) -> String {
+            if b.len() <= 96 { gen::hx(b) } else { format!("len:{}:sha256:{}", b.len(), gen::hx(&sha256(b))) }
+        }
+        pub fn enc_optj(o: &Option<Vec<u8>>) -> String {
+            match o {
+                Some(v) => format!("some:{}", enc_hx(v)),
+                None => "none".to_string(),
+            }
+        }
+        pub fn enc_flip(b: &[u8], bit: usize) -> Vec<u8> {
+            let mut v = b.to_vec();
+            v[bit / 8] ^= 1u8 << (bit % 8);
+            v
+        }
+        /// message lengths of C11 / C13
+        pub fn enc_lens(thorough: bool) -> Vec<usize> {
+            if thorough {
+                let mut v: Vec<usize> = (0..=40).collect();
+                v.extend(100..=140);
+                v.extend_from_slice(&[16382, 16383, 16384, 16385, 65535, 65536]);
+                v
+            } else {
+                vec![0, 1, 2, 15, 30, 31, 32, 33, 40, 100, 127, 128, 129, 140]
+            }
+        }
+        /// bit positions to flip in a byte string: all when short (or `all`), else the first 3 and the
+        /// last byte exhaustively plus `extra` random bits
+        pub fn enc_bits(rng: &mut Prng, nbytes: usize, all: bool, extra: usize) -> Vec<usize> {
+            if all || nbytes <= 4 {
+                return (0..nbytes * 8).collect();
+            }
+            let mut v: Vec<usize> = (0..24).collect();
+            v.extend((nbytes - 1) * 8..nbytes * 8);
+            for _ in 0..extra {
+                v.push(rng.below((nbytes * 8) as u64) as usize);
+            }
+            v.sort();
+            v.dedup();
+            v
+        }
+        pub fn enc_keys(rng: &mut Prng, thorough: bool) -> Vec<RScalar> {
+            let mut keys = if thorough {
+                gen::edge_scalars()
+            } else {
+                vec![RScalar::ONE, -RScalar::ONE, hkdf_scalar(b"BLS-SIG-KEYGEN-SALT-", b"edge-key")]
+            };
+            for _ in 0..(if thorough { 6 } else { 2 }) {
+                keys.push(rng.scalar());
+            }
+            keys
+        }
+    };
+}
+
+macro_rules! search_enc_c11 {
+    () => {
+        pub fn enc_c11_det(k: &RScalar, scheme: u8, m: &[u8], ct: &SignCryptCiphertext<C>) -> serde_json::Value {
+            json!({"impl": enc_impl(), "sk": gen::hs(k), "scheme": gen::SCH[scheme as usize], "msg_len": m.len(), "msg": enc_hx(m),
+                   "ct_u": gen::hx(&enc_pk_bytes(&ct.u)), "ct_v": enc_hx(&ct.v), "ct_w": gen::hx(&enc_sig_bytes(&ct.w)),
+                   "ct_scheme": scheme_name(ct.scheme)})
+        }
+
+        /// An altered ciphertext must report invalid and decrypt to nothing (also through a
+        /// decryption key derived from it).
+        pub fn enc_c11_expect_rejected(
+            s: &mut Search, class: &str, key: String, ct2: &SignCryptCiphertext<C>, sk: &SecretKey<C>, det: serde_json::Value, what: serde_json::Value,
+        ) {
+            enc_c11_expect_rejected_opt(s, class, key, ct2, sk, det, what, true)
+        }
+
+        pub fn enc_c11_expect_rejected_opt(
+            s: &mut Search, class: &str, key: String, ct2: &SignCryptCiphertext<C>, sk: &SecretKey<C>, mut det: serde_json::Value, what: serde_json::Value, via_key: bool,
+        ) {
+            let r = enc_catch(|| {
+                let valid = bool::from(ct2.is_valid());
+                let d1 = enc_opt(ct2.decrypt(sk));
+                let d2 = if via_key { enc_opt(sk.sign_decryption_key::<&[u8]>(ct2).decrypt(ct2)) } else { None };
+                (valid, d1, d2)
+            });
+            det["perturbation"] = what;
+            match r {
+                Err(()) => {
+                    det["observed"] = json!("panic");
+                    s.case(&format!("{class}_panicked"), key, false, det);
+                }
+                Ok((valid, d1, d2)) => {
+                    det["observed"] = json!({"is_valid": valid, "decrypt": enc_optj(&d1), "decrypt_via_key": enc_optj(&d2)});
+                    s.case(class, key, !valid && d1.is_none() && d2.is_none(), det);
+                }
+            }
+        }
+
+        /// all alterations of one honest ciphertext
+        pub fn enc_c11_alter(
+            s: &mut Search, rng: &mut Prng, k: &RScalar, scheme: u8, m: &[u8], ct: &SignCryptCiphertext<C>, other: &SignCryptCiphertext<C>, exhaustive: bool,
+        ) {
+            let sk = sk_of(k);
+            let det = enc_c11_det(k, scheme, m, ct);
+            let ub = enc_pk_bytes(&ct.u);
+            let wb = enc_sig_bytes(&ct.w);
+            let wire = enc_sc_wire(&ub, &ct.v, &wb, scheme);
+            let id = format!("{}|{}|{}|{}", enc_impl(), gen::hs(k), scheme, &gen::hx(&sha256(&wire))[..16]);
+            // the layout assumed below is the library's
+            let lib_wire = Vec::<u8>::from(ct);
+            if lib_wire != wire {
+                s.case("wire_layout_as_documented", id.clone(), false, det.clone());
+                return;
+            }
+            let v_off = ub.len() + enc_leb128(ct.v.len() as u64).len();
+            let w_off = v_off + ct.v.len();
+            // --- u and w: every single-bit flip of the point encodings, through the byte decoder
+            for (name, off, len) in [("u", 0usize, ub.len()), ("w", w_off, wb.len())] {
+                let bits: Vec<usize> = if exhaustive {
+                    (0..len * 8).collect()
+                } else {
+                    let mut b: Vec<usize> = (0..8).collect();
+                    for _ in 0..40 {
+                        b.push(rng.below((len * 8) as u64) as usize);
+                    }
+                    b.sort();
+                    b.dedup();
+                    b
+                };
+                for bit in bits {
+                    let wire2 = enc_flip(&wire, off * 8 + bit);
+                    let key = format!("{id}|{name}|{bit}");
+                    let what = json!({"component": name, "flip_bit": bit, "byte": bit / 8, "mask": 1u8 << (bit % 8)});
+                    match enc_catch(|| SignCryptCiphertext::<C>::try_from(wire2.as_slice())) {
+                        Err(()) => {
+                            let mut d = det.clone();
+                            d["perturbation"] = what;
+                            s.case(&format!("{name}_bit_flip_decode_panicked"), key, false, d);
+                        }
+                        Ok(Err(_)) => s.case(&format!("{name}_bit_flip_rejected_at_decode"), key, true, json!({})),
+                        Ok(Ok(ct2)) => {
+                            if &ct2 == ct {
+                                // a non-canonical encoding of the same point: no change of the component (C15/C16)
+                                let mut d = det.clone();
+                                d["perturbation"] = what;
+                                s.case(&format!("{name}_bit_flip_decodes_to_same_point"), key, true, d);
+                            } else {
+                                enc_c11_expect_rejected(s, &format!("{name}_bit_flip_rejected"), key, &ct2, &sk, det.clone(), what);
+                            }
+                        }
+                    }
+                }
+            }
+            // --- v: single-bit flips (every bit when short / exhaustive)
+            for bit in enc_bits(rng, ct.v.len(), exhaustive && ct.v.len() <= 64, 32) {
+                let mut ct2 = ct.clone();
+                ct2.v = enc_flip(&ct.v, bit);
+                let what = json!({"component": "v", "flip_bit": bit, "byte": bit / 8, "mask": 1u8 << (bit % 8)});
+                enc_c11_expect_rejected_opt(s, "v_bit_flip_rejected", format!("{id}|v|{bit}"), &ct2, &sk, det.clone(), what, bit % 4 == 0);
+            }
+            // --- v: truncation (never to empty: that input belongs to C17) and extension
+            for n in 1..=3usize {
+                if ct.v.len() > n {
+                    let mut ct2 = ct.clone();
+                    ct2.v.truncate(ct.v.len() - n);
+                    enc_c11_expect_rejected(s, "v_truncated_rejected", format!("{id}|vt|{n}"), &ct2, &sk, det.clone(), json!({"component": "v", "truncate_end": n}));
+                    let mut ct3 = ct.clone();
+                    ct3.v = ct.v[n..].to_vec();
+                    enc_c11_expect_rejected(s, "v_truncated_rejected", format!("{id}|vf|{n}"), &ct3, &sk, det.clone(), json!({"component": "v", "truncate_front": n}));
+                }
+                for fill in [0u8, 0xff, 0x80] {
+                    let mut ct2 = ct.clone();
+                    ct2.v.extend(std::iter::repeat(fill).take(n));
+                    enc_c11_expect_rejected(s, "v_extended_rejected", format!("{id}|ve|{n}|{fill}"), &ct2, &sk, det.clone(), json!({"component": "v", "append": n, "fill": fill}));
+                }
+            }
+            // the same through the byte encoding (length prefix adjusted)
+            {
+                let mut v2 = ct.v.clone();
+                v2.push(0);
+                let wire2 = enc_sc_wire(&ub, &v2, &wb, scheme);
+                if let Ok(Ok(ct2)) = enc_catch(|| SignCryptCiphertext::<C>::try_from(wire2.as_slice())) {
+                    enc_c11_expect_rejected(s, "v_extended_rejected", format!("{id}|vew"), &ct2, &sk, det.clone(), json!({"component": "v", "append": 1, "fill": 0, "via": "bytes"}));
+                }
+            }
+            // --- every other scheme label
+            for other_scheme in 0..3u8 {
+                if other_scheme == scheme {
+                    continue;
+                }
+                let mut ct2 = ct.clone();
+                ct2.scheme = scheme_of(other_scheme);
+                enc_c11_expect_rejected(s, "other_scheme_rejected", format!("{id}|s|{other_scheme}"), &ct2, &sk, det.clone(), json!({"component": "scheme", "to": gen::SCH[other_scheme as usize]}));
+            }
+            // --- whole components replaced: from another honest ciphertext, negated, identity
+            let mut reps: Vec<(&str, SignCryptCiphertext<C>)> = vec![];
+            let mut c = ct.clone();
+            c.u = other.u;
+            reps.push(("u_from_other_ciphertext", c));
+            let mut c = ct.clone();
+            c.w = other.w;
+            reps.push(("w_from_other_ciphertext", c));
+            if other.v != ct.v {
+                let mut c = ct.clone();
+                c.v = other.v.clone();
+                reps.push(("v_from_other_ciphertext", c));
+            }
+            let mut c = ct.clone();
+            c.u = -ct.u;
+            reps.push(("u_negated", c));
+            let mut c = ct.clone();
+            c.w = -ct.w;
+            reps.push(("w_negated", c));
+            let mut c = ct.clone();
+            c.u = -ct.u;
+            c.w = -ct.w;
+            reps.push(("u_and_w_negated", c));
+            let mut c = ct.clone();
+            c.u = <C as Pairing>::PublicKey::identity();
+            reps.push(("u_identity", c));
+            let mut c = ct.clone();
+            c.w = <C as Pairing>::Signature::identity();
+            reps.push(("w_identity", c));
+            let mut c = ct.clone();
+            c.u = ct.u + ct.u;
+            c.w = ct.w + ct.w;
+            reps.push(("u_and_w_doubled", c));
+            for (name, ct2) in reps {
+                let what = json!({"replace": name, "other_u": gen::hx(&enc_pk_bytes(&other.u)), "other_w": gen::hx(&enc_sig_bytes(&other.w)), "other_v": enc_hx(&other.v)});
+                enc_c11_expect_rejected(s, "component_replaced_rejected", format!("{id}|r|{name}"), &ct2, &sk, det.clone(), what);
+            }
+        }
+
+        /// decryption under another key never returns the original message
+        pub fn enc_c11_wrong_keys(s: &mut Search, rng: &mut Prng, k: &RScalar, scheme: u8, m: &[u8], ct: &SignCryptCiphertext<C>, n_random: usize) {
+            let det = enc_c11_det(k, scheme, m, ct);
+            let mut wrong = vec![k + RScalar::ONE, -*k, k + k, k - RScalar::ONE];
+            for _ in 0..n_random {
+                wrong.push(rng.scalar());
+            }
+            for wk in wrong {
+                if wk == *k || wk == RScalar::ZERO {
+                    continue;
+                }
+                let sk2 = sk_of(&wk);
+                let key = format!("{}|{}|{}|{}|{}", enc_impl(), gen::hs(k), scheme, gen::hx(&sha256(&ct.v)), gen::hs(&wk));
+                let r = enc_catch(|| (enc_opt(ct.decrypt(&sk2)), enc_opt(sk2.sign_decryption_key::<&[u8]>(ct).decrypt(ct))));
+                let mut d = det.clone();
+                d["wrong_sk"] = json!(gen::hs(&wk));
+                match r {
+                    Err(()) => s.case("wrong_key_decrypt_panicked", key, false, d),
+                    Ok((d1, d2)) => {
+                        d["observed"] = json!({"decrypt": enc_optj(&d1), "decrypt_via_key": enc_optj(&d2)});
+                        let ok = d1.as_deref() != Some(m) && d2.as_deref() != Some(m);
+                        s.case(if m.is_empty() { "wrong_key_never_original_message_empty_msg" } else { "wrong_key_never_original_message" }, key, ok, d);
+                    }
+                }
+            }
+        }
+
+        pub fn c11(s: &mut Search, rng: &mut Prng, thorough: bool) {
+            let keys = enc_keys(rng, thorough);
+            let lens = enc_lens(thorough);
+            // lengths whose ciphertexts get every alteration (every bit of u, v, w)
+            let exhaustive_lens: Vec<usize> = if thorough { vec![0, 1, 2, 7, 30, 31, 32, 33, 40] } else { vec![0, 31, 33] };
+            for (ki, k) in keys.iter().enumerate() {
+                let sk = sk_of(k);
+                let pk = sk.public_key();
+                for scheme in 0..3u8 {
+                    for (li, &len) in lens.iter().enumerate() {
+                        if ki >= 2 && (li + ki + scheme as usize) % 4 != 0 {
+                            continue;
+                        }
+                        let m = gen::message(rng, len);
+                        let key = format!("{}|{}|{}|{}|{}", enc_impl(), gen::hs(k), scheme, len, gen::hx(&sha256(&m)));
+                        let base = json!({"impl": enc_impl(), "sk": gen::hs(k), "scheme": gen::SCH[scheme as usize], "msg_len": len, "msg": enc_hx(&m)});
+                        let sealed = enc_catch(|| (pk.sign_crypt(scheme_of(scheme), &m), pk.sign_crypt(scheme_of(scheme), &m)));
+                        let Ok((ct, other)) = sealed else {
+                            s.case("sign_crypt_panicked", key, false, base);
+                            continue;
+                        };
+                        let det = enc_c11_det(k, scheme, &m, &ct);
+                        let r = enc_catch(|| {
+                            let valid = bool::from(ct.is_valid());
+                            let d1 = enc_opt(ct.decrypt(&sk));
+                            let d2 = enc_opt(sk.sign_decryption_key::<&[u8]>(&ct).decrypt(&ct));
+                            let wire = Vec::<u8>::from(&ct);
+                            let back = SignCryptCiphertext::<C>::try_from(wire.as_slice()).ok();
+                            let d3 = back.as_ref().and_then(|c| enc_opt(c.decrypt(&sk)));
+                            (valid, d1, d2, back.as_ref() == Some(&ct), d3)
+                        });
+                        let Ok((valid, d1, d2, same, d3)) = r else {
+                            s.case("honest_ciphertext_panicked", key, false, det);
+                            continue;
+                        };
+                        let mut d = det.clone();
+                        d["observed"] = json!({"is_valid": valid, "decrypt": enc_optj(&d1), "decrypt_via_key": enc_optj(&d2), "bytes_round_trip_equal": same, "decrypt_after_bytes": enc_optj(&d3)});
+                        s.case("honest_is_valid", key.clone(), valid, d.clone());
+                        s.case("honest_decrypts_to_message", key.clone(), d1.as_deref() == Some(&m[..]), d.clone());
+                        s.case("honest_decrypts_via_decryption_key", key.clone(), d2.as_deref() == Some(&m[..]), d.clone());
+                        s.case("honest_survives_byte_encoding", key.clone(), same && d3.as_deref() == Some(&m[..]), d.clone());
+                        s.case("fresh_ciphertexts_differ", key.clone(), other != ct, d);
+
+                        // alterations: everything for the short lengths with the first key(s); for the
+                        // other lengths a rotating sample with sampled bits of v
+                        let exhaustive = exhaustive_lens.contains(&len) && (ki == 0 || (thorough && ki == 7)) ;
+                        let sampled = !exhaustive && ki < 2 && (li + scheme as usize + ki) % (if thorough { 6 } else { 7 }) == 1 && (thorough || ki == 0);
+                        if exhaustive && (thorough || (li + scheme as usize) % 3 == 0 || len == 0 && scheme == 0) {
+                            enc_c11_alter(s, rng, k, scheme, &m, &ct, &other, true);
+                        } else if sampled {
+                            enc_c11_alter(s, rng, k, scheme, &m, &ct, &other, false);
+                        }
+                        if ki < 3 && (li + scheme as usize) % 3 == 0 {
+                            enc_c11_wrong_keys(s, rng, k, scheme, &m, &ct, if thorough { 6 } else { 3 });
+                        }
+                    }
+                }
+            }
+            // the empty message under many independent keys
+            let k = rng.scalar();
+            let pk = sk_of(&k).public_key();
+            for scheme in 0..3u8 {
+                if let Ok(ct) = enc_catch(|| pk.sign_crypt(scheme_of(scheme), b"")) {
+                    enc_c11_wrong_keys(s, rng, &k, scheme, b"", &ct, if thorough { 700 } else { 100 });
+                }
+            }
+        }
+    };
+}
+macro_rules! search_enc_c13 {
+    () => {
+        pub fn enc_c13_det(k: &RScalar, scheme: u8, m: &[u8], idb: &[u8], ct: &TimeCryptCiphertext<C>) -> serde_json::Value {
+            json!({"impl": enc_impl(), "sk": gen::hs(k), "scheme": gen::SCH[scheme as usize], "msg_len": m.len(), "msg": enc_hx(m), "id": enc_hx(idb),
+                   "ct_u": gen::hx(&enc_pk_bytes(&ct.u)), "ct_v": gen::hx(&ct.v), "ct_w": enc_hx(&ct.w), "ct_scheme": scheme_name(ct.scheme)})
+        }
+
+        pub fn enc_c13_ids(rng: &mut Prng) -> Vec<Vec<u8>> {
+            vec![vec![], vec![0u8], b"round-000001234".to_vec(), rng.bytes(32), rng.bytes(200)]
+        }
+
+        /// decrypt with panic capture
+        pub fn enc_c13_dec(ct: &TimeCryptCiphertext<C>, sig: &Signature<C>) -> Result<Option<Vec<u8>>, ()> {
+            enc_catch(|| enc_opt(ct.decrypt(sig)))
+        }
+
+        /// the outcome must be nothing (`allow_original == false`) or nothing / the original message
+        pub fn enc_c13_expect(
+            s: &mut Search, class: &str, key: String, ct2: &TimeCryptCiphertext<C>, sig: &Signature<C>, m: &[u8], allow_original: bool, mut det: serde_json::Value, what: serde_json::Value,
+        ) {
+            det["perturbation"] = what;
+            match enc_c13_dec(ct2, sig) {
+                Err(()) => {
+                    det["observed"] = json!("panic");
+                    s.case(&format!("{class}_panicked"), key, false, det);
+                }
+                Ok(d) => {
+                    det["observed"] = json!(enc_optj(&d));
+                    let ok = match &d {
+                        None => true,
+                        Some(x) => allow_original && x.as_slice() == m,
+                    };
+                    s.case(class, key, ok, det);
+                }
+            }
+        }
+
+        /// every alteration of one ciphertext, opened with a signature `sig` that opens the original
+        pub fn enc_c13_alter(
+            s: &mut Search, rng: &mut Prng, k: &RScalar, scheme: u8, m: &[u8], idb: &[u8], ct: &TimeCryptCiphertext<C>, other: &TimeCryptCiphertext<C>, sig: &Signature<C>, sig_kind: &str, exhaustive: bool,
+        ) {
+            let mut det = enc_c13_det(k, scheme, m, idb, ct);
+            det["signature"] = json!({"kind": sig_kind, "bytes": gen::hx(&enc_sig_bytes(sig.as_raw_value()))});
+            let ub = enc_pk_bytes(&ct.u);
+            let wire = enc_tl_wire(&ub, &ct.v, &ct.w, scheme);
+            let id = format!("{}|{}|{}|{}", enc_impl(), gen::hs(k), scheme, &gen::hx(&sha256(&wire))[..16]);
+            if Vec::<u8>::from(ct) != wire {
+                s.case("wire_layout_as_documented", id.clone(), false, det.clone());
+                return;
+            }
+            // --- u: single-bit flips of the encoding, through the byte decoder
+            let ubits: Vec<usize> = if exhaustive { (0..ub.len() * 8).collect() } else { enc_bits(rng, ub.len(), false, 24) };
+            for bit in ubits {
+                let wire2 = enc_flip(&wire, bit);
+                let key = format!("{id}|u|{bit}");
+                let what = json!({"component": "u", "flip_bit": bit, "byte": bit / 8, "mask": 1u8 << (bit % 8)});
+                match enc_catch(|| TimeCryptCiphertext::<C>::try_from(wire2.as_slice())) {
+                    Err(()) => {
+                        let mut d = det.clone();
+                        d["perturbation"] = what;
+                        s.case("u_bit_flip_decode_panicked", key, false, d);
+                    }
+                    Ok(Err(_)) => s.case("u_bit_flip_rejected_at_decode", key, true, json!({})),
+                    Ok(Ok(ct2)) => {
+                        if &ct2 == ct {
+                            let mut d = det.clone();
+                            d["perturbation"] = what;
+                            s.case("u_bit_flip_decodes_to_same_point", key, true, d);
+                        } else {
+                            enc_c13_expect(s, "u_bit_flip_gives_nothing", key, &ct2, sig, m, false, det.clone(), what);
+                        }
+                    }
+                }
+            }
+            // --- u replaced as a whole
+            let mut reps: Vec<(&str, <C as Pairing>::PublicKey)> = vec![
+                ("u_from_other_ciphertext", other.u),
+                ("u_negated", -ct.u),
+                ("u_identity", <C as Pairing>::PublicKey::identity()),
+                ("u_doubled", ct.u + ct.u),
+                ("u_generator", <C as Pairing>::PublicKey::generator()),
+            ];
+            for (name, u2) in reps.drain(..) {
+                let mut ct2 = ct.clone();
+                ct2.u = u2;
+                enc_c13_expect(s, "u_replaced_gives_nothing", format!("{id}|ur|{name}"), &ct2, sig, m, false, det.clone(), json!({"component": "u", "replace": name, "new_u": gen::hx(&enc_pk_bytes(&u2))}));
+            }
+            // --- v: every single-bit flip; v of another ciphertext
+            let vbits: Vec<usize> = if exhaustive { (0..256).collect() } else { enc_bits(rng, 32, false, 24) };
+            for bit in vbits {
+                let mut ct2 = ct.clone();
+                ct2.v[bit / 8] ^= 1u8 << (bit % 8);
+                enc_c13_expect(s, "v_bit_flip_gives_nothing", format!("{id}|v|{bit}"), &ct2, sig, m, false, det.clone(), json!({"component": "v", "flip_bit": bit, "byte": bit / 8, "mask": 1u8 << (bit % 8)}));
+            }
+            {
+                let mut ct2 = ct.clone();
+                ct2.v = other.v;
+                enc_c13_expect(s, "v_replaced_gives_nothing", format!("{id}|vr"), &ct2, sig, m, false, det.clone(), json!({"component": "v", "replace": "v_from_other_ciphertext", "new_v": gen::hx(&other.v)}));
+            }
+            // --- w: authenticated part = length prefix and message; the rest (if any) is padding
+            let auth = enc_leb128(m.len() as u64).len() + m.len();
+            let wlen = ct.w.len();
+            let auth_bits: Vec<usize> = if exhaustive && auth <= 64 { (0..auth * 8).collect() } else { enc_bits(rng, auth, false, 40) };
+            for bit in auth_bits {
+                let mut ct2 = ct.clone();
+                ct2.w[bit / 8] ^= 1u8 << (bit % 8);
+                let region = if bit / 8 < auth - m.len() { "length_prefix" } else { "message" };
+                let what = json!({"component": "w", "region": region, "flip_bit": bit, "byte": bit / 8, "mask": 1u8 << (bit % 8)});
+                enc_c13_expect(s, &format!("w_{region}_bit_flip_gives_nothing"), format!("{id}|w|{bit}"), &ct2, sig, m, false, det.clone(), what.clone());
+                // weaker half of the statement, recorded separately: never a DIFFERENT message
+                enc_c13_expect(s, "w_authenticated_bit_flip_never_other_message", format!("{id}|wo|{bit}"), &ct2, sig, m, true, det.clone(), what);
+            }
+            for bit in auth * 8..wlen * 8 {
+                let mut ct2 = ct.clone();
+                ct2.w[bit / 8] ^= 1u8 << (bit % 8);
+                enc_c13_expect(s, "w_padding_bit_flip_original_or_nothing", format!("{id}|w|{bit}"), &ct2, sig, m, true, det.clone(), json!({"component": "w", "region": "padding", "flip_bit": bit, "byte": bit / 8, "mask": 1u8 << (bit % 8)}));
+            }
+            // --- w extended / truncated (never to empty: that input belongs to C17)
+            for (n, fill) in [(1usize, 0u8), (1, 0xff), (2, 0x80), (3, 0x01), (32, 0xa5)] {
+                let mut ct2 = ct.clone();
+                ct2.w.extend(std::iter::repeat(fill).take(n));
+                enc_c13_expect(s, "w_extended_original_or_nothing", format!("{id}|we|{n}|{fill}"), &ct2, sig, m, true, det.clone(), json!({"component": "w", "append": n, "fill": fill}));
+            }
+            for n in 1..=3usize {
+                if wlen > n {
+                    let mut ct2 = ct.clone();
+                    ct2.w.truncate(wlen - n);
+                    if wlen - n >= auth {
+                        enc_c13_expect(s, "w_padding_truncated_original_or_nothing", format!("{id}|wt|{n}"), &ct2, sig, m, true, det.clone(), json!({"component": "w", "truncate_end": n}));
+                    } else {
+                        enc_c13_expect(s, "w_message_truncated_gives_nothing", format!("{id}|wt|{n}"), &ct2, sig, m, false, det.clone(), json!({"component": "w", "truncate_end": n}));
+                    }
+                }
+            }
+            if other.w != ct.w && other.w.len() == ct.w.len() {
+                let mut ct2 = ct.clone();
+                ct2.w = other.w.clone();
+                enc_c13_expect(s, "w_replaced_gives_nothing", format!("{id}|wr"), &ct2, sig, m, false, det.clone(), json!({"component": "w", "replace": "w_from_other_ciphertext_same_message", "new_w": enc_hx(&other.w)}));
+            }
+            // --- scheme label changed (signature kept): nothing
+            for other_scheme in 0..3u8 {
+                if other_scheme != scheme {
+                    let mut ct2 = ct.clone();
+                    ct2.scheme = scheme_of(other_scheme);
+                    enc_c13_expect(s, "scheme_label_changed_gives_nothing", format!("{id}|s|{other_scheme}"), &ct2, sig, m, false, det.clone(), json!({"component": "scheme", "to": gen::SCH[other_scheme as usize]}));
+                }
+            }
+        }
+
+        /// signatures that must not open the ciphertext
+        pub fn enc_c13_wrong_sigs(s: &mut Search, rng: &mut Prng, k: &RScalar, scheme: u8, m: &[u8], idb: &[u8], ct: &TimeCryptCiphertext<C>) {
+            let sk = sk_of(k);
+            let det = enc_c13_det(k, scheme, m, idb, ct);
+            let id = format!("{}|{}|{}|{}", enc_impl(), gen::hs(k), scheme, &gen::hx(&sha256(&Vec::<u8>::from(ct)))[..16]);
+            let mut cands: Vec<(&str, String, Signature<C>)> = vec![];
+            // other identifiers
+            let mut ids2: Vec<Vec<u8>> = vec![];
+            let mut a = idb.to_vec();
+            a.push(0);
+            ids2.push(a);
+            if idb.is_empty() {
+                ids2.push(b"x".to_vec());
+            } else {
+                ids2.push(vec![]);
+                ids2.push(idb[..idb.len() - 1].to_vec());
+                let mut b = idb.to_vec();
+                let l = b.len();
+                b[l - 1] ^= 1;
+                ids2.push(b);
+                let mut c = idb.to_vec();
+                c[0] ^= 0x80;
+                ids2.push(c);
+            }
+            for i2 in ids2 {
+                if i2 == idb {
+                    continue;
+                }
+                if let Ok(Ok(sg)) = enc_catch(|| sk.sign(scheme_of(scheme), &i2)) {
+                    cands.push(("signature_over_other_id_gives_nothing", format!("id:{}", enc_hx(&i2)), sg));
+                }
+            }
+            // other keys
+            for wk in [k + RScalar::ONE, -*k, rng.scalar(), rng.scalar()] {
+                if wk == *k || wk == RScalar::ZERO {
+                    continue;
+                }
+                if let Ok(Ok(sg)) = enc_catch(|| sk_of(&wk).sign(scheme_of(scheme), idb)) {
+                    cands.push(("signature_by_other_key_gives_nothing", format!("sk:{}", gen::hs(&wk)), sg));
+                }
+            }
+            // other schemes: honestly signed under them, and the right point under their label
+            for other_scheme in 0..3u8 {
+                if other_scheme == scheme {
+                    continue;
+                }
+                if let Ok(Ok(sg)) = enc_catch(|| sk.sign(scheme_of(other_scheme), idb)) {
+                    cands.push(("signature_under_other_scheme_gives_nothing", format!("signed:{}", gen::SCH[other_scheme as usize]), sg));
+                }
+                if let Ok(Ok(sg)) = enc_catch(|| sk.sign(scheme_of(scheme), idb)) {
+                    cands.push(("signature_under_other_scheme_gives_nothing", format!("relabelled:{}", gen::SCH[other_scheme as usize]), enc_wrap_sig(other_scheme, *sg.as_raw_value())));
+                }
+                let raw = <C as HashToPoint>::hash_to_point(idb, enc_sig_tag(G1, scheme)) * sk.0;
+                cands.push(("signature_under_other_scheme_gives_nothing", format!("raw_relabelled:{}", gen::SCH[other_scheme as usize]), enc_wrap_sig(other_scheme, raw)));
+            }
+            // identity signature under every label
+            for l in 0..3u8 {
+                cands.push(("identity_signature_gives_nothing", format!("identity:{}", gen::SCH[l as usize]), enc_wrap_sig(l, <C as Pairing>::Signature::identity())));
+            }
+            for (class, what, sg) in cands {
+                let mut d = det.clone();
+                d["signature"] = json!({"what": what, "bytes": gen::hx(&Vec::<u8>::from(&sg))});
+                match enc_c13_dec(ct, &sg) {
+                    Err(()) => s.case(&format!("{class}_panicked"), format!("{id}|{what}"), false, d),
+                    Ok(o) => {
+                        d["observed"] = json!(enc_optj(&o));
+                        s.case(class, format!("{id}|{what}"), o.is_none(), d);
+                    }
+                }
+            }
+        }
+
+        /// a signature recombined from threshold shares opens the ciphertext
+        pub fn enc_c13_threshold(s: &mut Search, rng: &mut Prng, k: &RScalar, scheme: u8, m: &[u8], idb: &[u8], ct: &TimeCryptCiphertext<C>, t: usize, n: usize) {
+            use rand_core::SeedableRng;
+            if scheme == 1 {
+                return; // shares cannot sign under message augmentation (documented)
+            }
+            let sk = sk_of(k);
+            let mut seed = [0u8; 32];
+            seed.copy_from_slice(&rng.bytes(32));
+            let mut det = enc_c13_det(k, scheme, m, idb, ct);
+            det["threshold"] = json!({"t": t, "n": n, "split_rng_chacha20_seed": gen::hx(&seed)});
+            let key = format!("{}|{}|{}|{}|{}|{}|{}", enc_impl(), gen::hs(k), scheme, gen::hx(&sha256(&Vec::<u8>::from(ct))), t, n, gen::hx(&seed));
+            let r = enc_catch(|| {
+                let shares = sk.split_with_rng(t, n, rand_chacha::ChaCha20Rng::from_seed(seed)).map_err(|e| format!("split: {e:?}"))?;
+                let sigs = shares.iter().map(|sh| sh.sign(scheme_of(scheme), idb)).collect::<Result<Vec<_>, _>>().map_err(|e| format!("share sign: {e:?}"))?;
+                let mut out = vec![];
+                // first t, last t, all n
+                for (name, sub) in [("first_t", &sigs[..t]), ("last_t", &sigs[n - t..]), ("all_n", &sigs[..])] {
+                    let sg = Signature::<C>::from_shares(sub).map_err(|e| format!("from_shares: {e:?}"))?;
+                    out.push((name, enc_opt(ct.decrypt(&sg))));
+                }
+                Ok::<_, String>(out)
+            });
+            match r {
+                Err(()) => s.case("threshold_signature_panicked", key, false, det),
+                Ok(Err(e)) => {
+                    det["observed"] = json!(e);
+                    s.case("threshold_signature_opens", key, false, det);
+                }
+                Ok(Ok(out)) => {
+                    for (name, o) in out {
+                        let mut d = det.clone();
+                        d["subset"] = json!(name);
+                        d["observed"] = json!(enc_optj(&o));
+                        s.case("threshold_signature_opens", format!("{key}|{name}"), o.as_deref() == Some(m), d);
+                    }
+                }
+            }
+        }
+
+        pub fn c13(s: &mut Search, rng: &mut Prng, thorough: bool) {
+            let keys = enc_keys(rng, thorough);
+            let lens = enc_lens(thorough);
+            let ids = enc_c13_ids(rng);
+            let exhaustive_lens: Vec<usize> = if thorough { vec![0, 1, 2, 7, 30, 31, 32, 33, 40] } else { vec![0, 1, 30, 33] };
+            let mut n = 0usize;
+            for (ki, k) in keys.iter().enumerate() {
+                let sk = sk_of(k);
+                let pk = sk.public_key();
+                for scheme in 0..3u8 {
+                    for (li, &len) in lens.iter().enumerate() {
+                        if ki >= 2 && (li + ki + scheme as usize) % 4 != 0 {
+                            continue;
+                        }
+                        n += 1;
+                        let m = gen::message(rng, len);
+                        // the empty identifier with every (scheme, length class) of the first key
+                        let idb = if ki == 0 && li % 3 == 0 { ids[0].clone() } else { ids[n % ids.len()].clone() };
+                        let key = format!("{}|{}|{}|{}|{}|{}", enc_impl(), gen::hs(k), scheme, len, gen::hx(&sha256(&m)), gen::hx(&sha256(&idb)));
+                        let base = json!({"impl": enc_impl(), "sk": gen::hs(k), "scheme": gen::SCH[scheme as usize], "msg_len": len, "msg": enc_hx(&m), "id": enc_hx(&idb)});
+                        let sealed = enc_catch(|| (pk.encrypt_time_lock(scheme_of(scheme), &m, &idb), pk.encrypt_time_lock(scheme_of(scheme), &m, &idb)));
+                        let (ct, other) = match sealed {
+                            Err(()) => {
+                                s.case("encrypt_time_lock_panicked", key, false, base);
+                                continue;
+                            }
+                            Ok((Ok(a), Ok(b))) => (a, b),
+                            Ok(_) => {
+                                s.case("encrypt_time_lock_succeeds", key, false, base);
+                                continue;
+                            }
+                        };
+                        let det = enc_c13_det(k, scheme, &m, &idb, &ct);
+                        let Ok(Ok(sig)) = enc_catch(|| sk.sign(scheme_of(scheme), &idb)) else {
+                            s.case("sign_identifier_succeeds", key, false, det);
+                            continue;
+                        };
+                        let r = enc_catch(|| {
+                            let d1 = enc_opt(ct.decrypt(&sig));
+                            let wire = Vec::<u8>::from(&ct);
+                            let back = TimeCryptCiphertext::<C>::try_from(wire.as_slice()).ok();
+                            let d2 = back.as_ref().and_then(|c| enc_opt(c.decrypt(&sig)));
+                            (d1, back.as_ref() == Some(&ct), d2)
+                        });
+                        let Ok((d1, same, d2)) = r else {
+                            s.case("honest_decrypt_panicked", key, false, det);
+                            continue;
+                        };
+                        let mut d = det.clone();
+                        d["signature"] = json!(gen::hx(&Vec::<u8>::from(&sig)));
+                        d["observed"] = json!({"decrypt": enc_optj(&d1), "bytes_round_trip_equal": same, "decrypt_after_bytes": enc_optj(&d2)});
+                        let opens = d1.as_deref() == Some(&m[..]);
+                        s.case("signature_over_id_opens", key.clone(), opens, d.clone());
+                        s.case("byte_encoding_preserves_ciphertext_and_outcome", key.clone(), same && d2 == d1, d.clone());
+                        s.case("fresh_ciphertexts_differ", key.clone(), other != ct, d);
+
+                        if ki < 3 && (li + scheme as usize) % 3 == 0 {
+                            let (t, nn) = [(2usize, 3usize), (3, 5), (2, 2), (4, 7)][(li + ki) % 4];
+                            enc_c13_threshold(s, rng, k, scheme, &m, &idb, &ct, t, nn);
+                        }
+                        if ki < 3 && (li + scheme as usize + ki) % 3 == 1 {
+                            enc_c13_wrong_sigs(s, rng, k, scheme, &m, &idb, &ct);
+                        }
+                        // alterations, opened with the honest signature; if that does not open the
+                        // unaltered ciphertext (then the round trip above has already failed), with the
+                        // key the construction documents, sk * H(id, tag), so that the checks stay meaningful
+                        let exhaustive = exhaustive_lens.contains(&len) && ki == 0 && (thorough || (li + scheme as usize) % 3 == 0 || len == 0 && scheme == 0);
+                        let sampled = !exhaustive && ki < 2 && (li + scheme as usize + ki) % (if thorough { 5 } else { 7 }) == 1;
+                        if exhaustive || sampled {
+                            let (sg, kind) = if opens {
+                                (sig, "sk.sign(scheme, id)")
+                            } else {
+                                (enc_wrap_sig(scheme, <C as HashToPoint>::hash_to_point(&idb, enc_sig_tag(G1, scheme)) * sk.0), "sk * hash_to_point(id, tag) (honest signature does not open)")
+                            };
+                            if enc_c13_dec(&ct, &sg).ok().flatten().as_deref() == Some(&m[..]) {
+                                enc_c13_alter(s, rng, k, scheme, &m, &idb, &ct, &other, &sg, kind, exhaustive);
+                            } else {
+                                s.case("construction_key_opens", key, false, det);
+                            }
+                        }
+                    }
+                }
+            }
+        }
+    };
+}
+macro_rules! search_enc_c18 {
+    () => {
+        /// fixed answers of the reference's own framing rules (the reference is the fixed point)
+        pub fn enc_c18_self_check(s: &mut Search) {
+            let leb: [(u64, &[u8]); 8] = [(0, &[0]), (1, &[1]), (127, &[0x7f]), (128, &[0x80, 1]), (300, &[0xac, 2]), (16383, &[0xff, 0x7f]), (16384, &[0x80, 0x80, 1]), (65536, &[0x80, 0x80, 4])];
+            for (n, b) in leb {
+                let ok = enc_leb128(n) == b && enc_unleb128(b) == Some((n, b.len()));
+                s.case("reference_length_prefix_known_answer", format!("{}|{n}", enc_impl()), ok, json!({"n": n, "expected": gen::hx(b), "got": gen::hx(&enc_leb128(n))}));
+            }
+            let f0 = enc_frame(b"");
+            let f31 = enc_frame(&[7u8; 31]);
+            let f5 = enc_frame(b"hello");
+            let ok = f0 == vec![0u8; 32] && f31.len() == 32 && f31[0] == 31 && enc_frame(&[7u8; 32]).len() == 33 && f5[..6] == [5, b'h', b'e', b'l', b'l', b'o'] && f5[6..] == [0u8; 26]
+                && enc_unframe(&f5).as_deref() == Some(&b"hello"[..]);
+            s.case("reference_framing_known_answer", enc_impl().to_string(), ok, json!({}));
+        }
+
+        pub fn enc_c18_signcrypt(s: &mut Search, rng: &mut Prng, k: &RScalar, scheme: u8, m: &[u8]) {
+            let sk = sk_of(k);
+            let pk = sk.public_key();
+            let pkb = Vec::<u8>::from(&pk);
+            let seed = rng.bytes(32);
+            let key = format!("{}|{}|{}|{}|{}", enc_impl(), gen::hs(k), scheme, gen::hx(&sha256(m)), gen::hx(&seed));
+            let mut det = json!({"impl": enc_impl(), "sk": gen::hs(k), "scheme": gen::SCH[scheme as usize], "msg_len": m.len(), "msg": enc_hx(m), "reference_seed": gen::hx(&seed)});
+            // ---- reference seals, library opens (public fields and byte decoder)
+            match enc_sc_seal(G1, &pkb, m, scheme, &seed) {
+                None => s.case("reference_accepts_library_public_key", key.clone(), false, det.clone()),
+                Some((u, v, w)) => {
+                    det["ref_ct"] = json!({"u": gen::hx(&u), "v": enc_hx(&v), "w": gen::hx(&w)});
+                    let wire = enc_sc_wire(&u, &v, &w, scheme);
+                    let r = enc_catch(|| {
+                        let (Some(up), Some(wp)) = (enc_pk_pt(&u), enc_sig_pt(&w)) else { return Err("library rejects the reference's point encodings".to_string()) };
+                        let ct = SignCryptCiphertext::<C> { u: up, v: v.clone(), w: wp, scheme: scheme_of(scheme) };
+                        let ct_b = SignCryptCiphertext::<C>::try_from(wire.as_slice()).map_err(|e| format!("byte decoder: {e:?}"))?;
+                        Ok((ct_b == ct, Vec::<u8>::from(&ct) == wire, bool::from(ct.is_valid()), enc_opt(ct.decrypt(&sk)), enc_opt(ct_b.decrypt(&sk)), enc_opt(sk.sign_decryption_key::<&[u8]>(&ct).decrypt(&ct))))
+                    });
+                    match r {
+                        Err(()) => s.case("library_opens_reference_signcryption_panicked", key.clone(), false, det.clone()),
+                        Ok(Err(e)) => {
+                            let mut d = det.clone();
+                            d["observed"] = json!(e);
+                            s.case("library_decodes_reference_signcryption", key.clone(), false, d);
+                        }
+                        Ok(Ok((same, wire_same, valid, d1, d2, d3))) => {
+                            let mut d = det.clone();
+                            d["observed"] = json!({"decoded_equals_fields": same, "library_bytes_equal_reference_bytes": wire_same, "is_valid": valid, "decrypt": enc_optj(&d1), "decrypt_decoded": enc_optj(&d2), "decrypt_via_key": enc_optj(&d3)});
+                            s.case("library_decodes_reference_signcryption", key.clone(), same && wire_same, d.clone());
+                            s.case("library_validates_reference_signcryption", key.clone(), valid, d.clone());
+                            s.case("library_opens_reference_signcryption", key.clone(), d1.as_deref() == Some(m) && d2.as_deref() == Some(m) && d3.as_deref() == Some(m), d);
+                        }
+                    }
+                    // the reference agrees with itself (guards the reference)
+                    let back = enc_sc_open(G1, k, &u, &v, &w, scheme);
+                    s.case("reference_opens_reference_signcryption", key.clone(), back.as_ref().map(|x| x.0.as_slice()) == Some(m), det.clone());
+                }
+            }
+            // ---- library seals, reference opens
+            let Ok(ct) = enc_catch(|| pk.sign_crypt(scheme_of(scheme), m)) else {
+                s.case("sign_crypt_panicked", key, false, det);
+                return;
+            };
+            let (u, w) = (enc_pk_bytes(&ct.u), enc_sig_bytes(&ct.w));
+            let mut d = det.clone();
+            d["lib_ct"] = json!({"u": gen::hx(&u), "v": enc_hx(&ct.v), "w": gen::hx(&w)});
+            let lib_wire = Vec::<u8>::from(&ct);
+            s.case("library_signcryption_bytes_as_documented", key.clone(), lib_wire == enc_sc_wire(&u, &ct.v, &w, scheme), d.clone());
+            s.case("reference_validates_library_signcryption", key.clone(), enc_sc_valid(G1, &u, &ct.v, &w, scheme), d.clone());
+            // under every other tag the reference must refuse it (tags are pairwise distinct)
+            let cross = (0..3u8).filter(|o| *o != scheme).any(|o| enc_sc_valid(G1, &u, &ct.v, &w, o));
+            s.case("reference_refuses_library_signcryption_under_other_tag", key.clone(), !cross, d.clone());
+            let opened = enc_sc_open(G1, k, &u, &ct.v, &w, scheme);
+            d["observed"] = json!(opened.as_ref().map(|x| (enc_hx(&x.0), enc_hx(&x.1))));
+            s.case("reference_opens_library_signcryption", key.clone(), opened.as_ref().map(|x| x.0.as_slice()) == Some(m), d.clone());
+            // whole payload: prefix, message and zero padding exactly as documented
+            s.case("library_signcryption_framing_as_documented", key, opened.as_ref().map(|x| x.1.clone()) == Some(enc_frame(m)), d);
+        }
+
+        pub fn enc_c18_timelock(s: &mut Search, rng: &mut Prng, k: &RScalar, scheme: u8, m: &[u8], idb: &[u8]) {
+            let sk = sk_of(k);
+            let pk = sk.public_key();
+            let pkb = Vec::<u8>::from(&pk);
+            let seed = rng.bytes(32);
+            let key = format!("{}|{}|{}|{}|{}|{}", enc_impl(), gen::hs(k), scheme, gen::hx(&sha256(m)), gen::hx(&sha256(idb)), gen::hx(&seed));
+            let mut det = json!({"impl": enc_impl(), "sk": gen::hs(k), "scheme": gen::SCH[scheme as usize], "msg_len": m.len(), "msg": enc_hx(m), "id": enc_hx(idb), "reference_seed": gen::hx(&seed)});
+            // the opening key of the construction: sk * H(id, tag), under the scheme's label
+            let keyb = enc_tl_key(G1, k, idb, scheme);
+            det["opening_key"] = json!(gen::hx(&keyb));
+            let Some(sig) = enc_sig_pt(&keyb).map(|p| enc_wrap_sig(scheme, p)) else {
+                s.case("library_decodes_reference_opening_key", key, false, det);
+                return;
+            };
+            // Basic and PoP: this IS the library's signature over the identifier (Aug prefixes the key: see C13)
+            if scheme != 1 {
+                let same = enc_catch(|| sk.sign(scheme_of(scheme), idb).ok().map(|x| x == sig)).ok().flatten() == Some(true);
+                s.case("library_signature_equals_reference_opening_key", key.clone(), same, det.clone());
+            }
+            // ---- reference seals, library opens
+            match enc_tl_seal(G1, &pkb, m, idb, scheme, &seed) {
+                None => s.case("reference_accepts_library_public_key", key.clone(), false, det.clone()),
+                Some((u, v, w)) => {
+                    det["ref_ct"] = json!({"u": gen::hx(&u), "v": gen::hx(&v), "w": enc_hx(&w)});
+                    let wire = enc_tl_wire(&u, &v, &w, scheme);
+                    let r = enc_catch(|| {
+                        let Some(up) = enc_pk_pt(&u) else { return Err("library rejects the reference's point encoding".to_string()) };
+                        let mut v32 = [0u8; 32];
+                        v32.copy_from_slice(&v);
+                        let ct = TimeCryptCiphertext::<C> { u: up, v: v32, w: w.clone(), scheme: scheme_of(scheme) };
+                        let ct_b = TimeCryptCiphertext::<C>::try_from(wire.as_slice()).map_err(|e| format!("byte decoder: {e:?}"))?;
+                        Ok((ct_b == ct, Vec::<u8>::from(&ct) == wire, enc_opt(ct.decrypt(&sig)), enc_opt(ct_b.decrypt(&sig))))
+                    });
+                    match r {
+                        Err(()) => s.case("library_opens_reference_time_lock_panicked", key.clone(), false, det.clone()),
+                        Ok(Err(e)) => {
+                            let mut d = det.clone();
+                            d["observed"] = json!(e);
+                            s.case("library_decodes_reference_time_lock", key.clone(), false, d);
+                        }
+                        Ok(Ok((same, wire_same, d1, d2))) => {
+                            let mut d = det.clone();
+                            d["observed"] = json!({"decoded_equals_fields": same, "library_bytes_equal_reference_bytes": wire_same, "decrypt": enc_optj(&d1), "decrypt_decoded": enc_optj(&d2)});
+                            s.case("library_decodes_reference_time_lock", key.clone(), same && wire_same, d.clone());
+                            s.case("library_opens_reference_time_lock", key.clone(), d1.as_deref() == Some(m) && d2.as_deref() == Some(m), d);
+                        }
+                    }
+                    let back = enc_tl_open(G1, &keyb, &u, &v, &w);
+                    s.case("reference_opens_reference_time_lock", key.clone(), back.as_ref().map(|x| x.0.as_slice()) == Some(m), det.clone());
+                }
+            }
+            // ---- library seals, reference opens, then re-derives the whole ciphertext from alpha
+            let ct = match enc_catch(|| pk.encrypt_time_lock(scheme_of(scheme), m, idb)) {
+                Ok(Ok(c)) => c,
+                _ => {
+                    s.case("encrypt_time_lock_succeeds", key, false, det);
+                    return;
+                }
+            };
+            let u = enc_pk_bytes(&ct.u);
+            let mut d = det.clone();
+            d["lib_ct"] = json!({"u": gen::hx(&u), "v": gen::hx(&ct.v), "w": enc_hx(&ct.w)});
+            s.case("library_time_lock_bytes_as_documented", key.clone(), Vec::<u8>::from(&ct) == enc_tl_wire(&u, &ct.v, &ct.w, scheme), d.clone());
+            let opened = enc_tl_open(G1, &keyb, &u, &ct.v, &ct.w);
+            d["observed"] = json!(opened.as_ref().map(|x| (enc_hx(&x.0), gen::hx(&x.1), enc_hx(&x.2))));
+            s.case("reference_opens_library_time_lock", key.clone(), opened.as_ref().map(|x| x.0.as_slice()) == Some(m), d.clone());
+            if let Some((_, al, payload)) = opened {
+                s.case("library_time_lock_framing_as_documented", key.clone(), payload == enc_frame(m), d.clone());
+                let mut a32 = [0u8; 32];
+                a32.copy_from_slice(&al);
+                let alpha: Option<RScalar> = RScalar::from_le_bytes(&a32).into();
+                let again = alpha.and_then(|a| enc_tl_seal_alpha(G1, &pkb, m, idb, scheme, &a));
+                d["reference_reseal"] = json!(again.as_ref().map(|x| (gen::hx(&x.0), gen::hx(&x.1), enc_hx(&x.2))));
+                s.case("reference_reseal_from_alpha_equals_library_time_lock", key.clone(), again == Some((u.clone(), ct.v.to_vec(), ct.w.clone())), d.clone());
+            }
+            // keys derived under another tag or identifier do not open it in the reference
+            let mut wrong = false;
+            for o in 0..3u8 {
+                if o != scheme {
+                    wrong |= enc_tl_open(G1, &enc_tl_key(G1, k, idb, o), &u, &ct.v, &ct.w).is_some();
+                }
+            }
+            let mut id2 = idb.to_vec();
+            id2.push(b'.');
+            wrong |= enc_tl_open(G1, &enc_tl_key(G1, k, &id2, scheme), &u, &ct.v, &ct.w).is_some();
+            s.case("reference_refuses_library_time_lock_under_other_tag_or_id", key, !wrong, d);
+        }
+
+        pub fn enc_c18_pok(s: &mut Search, rng: &mut Prng, k: &RScalar, scheme: u8, m: &[u8]) {
+            let sk = sk_of(k);
+            let pk = sk.public_key();
+            let pkb = Vec::<u8>::from(&pk);
+            let now = std::time::SystemTime::now().duration_since(std::time::UNIX_EPOCH).map(|d| d.as_millis() as u64).unwrap_or(0);
+            let ts = [0u64, 1, 255, 256, 0x0102030405060708, now, u64::MAX - 1, u64::MAX, rng.next()];
+            let x = rng.scalar();
+            let det = json!({"impl": enc_impl(), "sk": gen::hs(k), "scheme": gen::SCH[scheme as usize], "msg": enc_hx(m), "x": gen::hs(&x)});
+            // challenge derivation on arbitrary commitments
+            for (i, t) in ts.iter().enumerate() {
+                let ub = gen::enc_sig(G1, &if i % 2 == 0 { rng.scalar() } else { RScalar::from(i as u64) });
+                let key = format!("{}|{}|{}", enc_impl(), gen::hx(&ub), t);
+                let mut d = json!({"impl": enc_impl(), "u": gen::hx(&ub), "t": t});
+                let y_ref = enc_pok_y(&ub, *t);
+                let r = enc_catch(|| enc_sig_pt(&ub).map(|p| enc_ref_scalar(&<C as BlsSignatureProof>::compute_y(p, *t))));
+                match r {
+                    Err(()) => s.case("pok_challenge_panicked", key, false, d),
+                    Ok(y_lib) => {
+                        d["observed"] = json!({"library": y_lib.map(|y| gen::hs(&y)), "reference": gen::hs(&y_ref)});
+                        s.case("pok_challenge_equals_reference", key, y_lib == Some(y_ref), d);
+                    }
+                }
+            }
+            // reference proves, library verifies (no timeout: the timestamp is arbitrary)
+            for t in [0u64, now, 0x0102030405060708] {
+                let key = format!("{}|{}|{}|{}|{}|{}", enc_impl(), gen::hs(k), scheme, gen::hx(&sha256(m)), gen::hs(&x), t);
+                let (ub, vb) = enc_pok_prove(G1, k, m, scheme, &x, t);
+                let mut d = det.clone();
+                d["t"] = json!(t);
+                d["ref_proof"] = json!({"u": gen::hx(&ub), "v": gen::hx(&vb)});
+                let r = enc_catch(|| {
+                    let (Some(u), Some(v)) = (enc_sig_pt(&ub), enc_sig_pt(&vb)) else { return Err("decode".to_string()) };
+                    let proof = match scheme {
+                        0 => ProofOfKnowledge::<C>::Basic { u, v },
+                        1 => ProofOfKnowledge::<C>::MessageAugmentation { u, v },
+                        _ => ProofOfKnowledge::<C>::ProofOfPossession { u, v },
+                    };
+                    let p = ProofOfKnowledgeTimestamp::<C> { proof, timestamp: t };
+                    // byte layout: variant tag, u, v, timestamp as 8 little-endian bytes
+                    let mut wire = vec![scheme];
+                    wire.extend_from_slice(&ub);
+                    wire.extend_from_slice(&vb);
+                    wire.extend_from_slice(&t.to_le_bytes());
+                    let layout = Vec::<u8>::from(&p) == wire;
+                    p.verify(pk, m, None).map_err(|e| format!("{e:?}"))?;
+                    // and a proof with a shifted timestamp must not verify
+                    let q = ProofOfKnowledgeTimestamp::<C> { proof, timestamp: t ^ 1 };
+                    Ok((layout, q.verify(pk, m, None).is_err()))
+                });
+                match r {
+                    Err(()) => s.case("library_verifies_reference_pok_panicked", key, false, d),
+                    Ok(Err(e)) => {
+                        d["observed"] = json!(e);
+                        s.case("library_verifies_reference_pok", key, false, d);
+                    }
+                    Ok(Ok((layout, shifted_rejected))) => {
+                        s.case("library_verifies_reference_pok", key.clone(), true, d.clone());
+                        s.case("library_pok_bytes_as_documented", key.clone(), layout, d.clone());
+                        s.case("library_rejects_reference_pok_with_other_timestamp", key, shifted_rejected, d);
+                    }
+                }
+            }
+            // library proves (for the signature sk * H(msg, tag)), reference verifies
+            let key = format!("{}|{}|{}|{}", enc_impl(), gen::hs(k), scheme, gen::hx(&sha256(m)));
+            let sigb = enc_tl_key(G1, k, m, scheme);
+            let r = enc_catch(|| {
+                let sp = enc_sig_pt(&sigb).ok_or("decode".to_string())?;
+                let p = ProofOfKnowledgeTimestamp::<C>::generate(m, enc_wrap_sig(scheme, sp)).map_err(|e| format!("{e:?}"))?;
+                let (u, v) = match p.proof {
+                    ProofOfKnowledge::Basic { u, v } | ProofOfKnowledge::MessageAugmentation { u, v } | ProofOfKnowledge::ProofOfPossession { u, v } => (u, v),
+                };
+                Ok::<_, String>((enc_sig_bytes(&u), enc_sig_bytes(&v), p.timestamp))
+            });
+            match r {
+                Err(()) => s.case("library_pok_generate_panicked", key, false, det),
+                Ok(Err(e)) => {
+                    let mut d = det.clone();
+                    d["observed"] = json!(e);
+                    s.case("library_pok_generate_succeeds", key, false, d);
+                }
+                Ok(Ok((ub, vb, t))) => {
+                    let mut d = det.clone();
+                    d["lib_proof"] = json!({"u": gen::hx(&ub), "v": gen::hx(&vb), "t": t});
+                    s.case("reference_verifies_library_pok", key.clone(), enc_pok_verify(G1, &pkb, m, scheme, &ub, &vb, t), d.clone());
+                    s.case("reference_rejects_library_pok_with_other_timestamp", key, !enc_pok_verify(G1, &pkb, m, scheme, &ub, &vb, t.wrapping_add(1)), d);
+                }
+            }
+        }
+
+        pub fn enc_c18_elgamal(s: &mut Search, rng: &mut Prng, k: &RScalar, msg_scalar: &RScalar) {
+            let sk = sk_of(k);
+            let pk = sk.public_key();
+            let pkb = Vec::<u8>::from(&pk);
+            let (b, rr) = (rng.scalar(), rng.scalar());
+            let key = format!("{}|{}|{}|{}|{}", enc_impl(), gen::hs(k), gen::hs(msg_scalar), gen::hs(&b), gen::hs(&rr));
+            let det = json!({"impl": enc_impl(), "sk": gen::hs(k), "message_scalar": gen::hs(msg_scalar), "blinder": gen::hs(&b), "nonce": gen::hs(&rr)});
+            let hgen = enc_eg_generator(G1);
+            // generator derivation
+            let g_lib = enc_catch(|| enc_pk_bytes(&<C as BlsElGamal>::message_generator()));
+            s.case("elgamal_generator_equals_reference", enc_impl().to_string(), g_lib == Ok(hgen.encode()), json!({"impl": enc_impl(), "reference": gen::hx(&hgen.encode()), "library": g_lib.ok().map(|x| gen::hx(&x))}));
+            let expect_pt = hgen.mul(msg_scalar).encode();
+            // ---- reference proves, library verifies and decrypts
+            if let Some((c1, c2, zm, zb, c)) = enc_eg_prove(G1, &pkb, msg_scalar, &b, &rr) {
+                let mut d = det.clone();
+                d["ref_proof"] = json!({"c1": gen::hx(&c1), "c2": gen::hx(&c2), "message_proof": gen::hs(&zm), "blinder_proof": gen::hs(&zb), "challenge": gen::hs(&c)});
+                let wire = enc_eg_wire(&c1, &c2, &zm, &zb, &c);
+                let r = enc_catch(|| {
+                    let (Some(p1), Some(p2)) = (enc_pk_pt(&c1), enc_pk_pt(&c2)) else { return Err("decode".to_string()) };
+                    let p = ElGamalProof::<C> { ciphertext: ElGamalCiphertext { c1: p1, c2: p2 }, message_proof: enc_lib_scalar(&zm), blinder_proof: enc_lib_scalar(&zb), challenge: enc_lib_scalar(&c) };
+                    let pb = ElGamalProof::<C>::try_from(wire.as_slice()).map_err(|e| format!("byte decoder: {e:?}"))?;
+                    let layout = pb == p && Vec::<u8>::from(&p) == wire;
+                    p.verify(pk).map_err(|e| format!("verify: {e:?}"))?;
+                    let pt = p.verify_and_decrypt(&sk).map_err(|e| format!("verify_and_decrypt: {e:?}"))?;
+                    let plain = p.ciphertext.decrypt(&sk);
+                    // any other challenge value must be refused
+                    let mut q = p;
+                    q.challenge += Scalar::ONE;
+                    Ok((layout, enc_pk_bytes(&pt), enc_pk_bytes(&plain), q.verify(pk).is_err()))
+                });
+                match r {
+                    Err(()) => s.case("library_verifies_reference_elgamal_proof_panicked", key.clone(), false, d),
+                    Ok(Err(e)) => {
+                        d["observed"] = json!(e);
+                        s.case("library_verifies_reference_elgamal_proof", key.clone(), false, d);
+                    }
+                    Ok(Ok((layout, pt, plain, other_refused))) => {
+                        d["observed"] = json!({"decrypted": gen::hx(&pt), "expected": gen::hx(&expect_pt)});
+                        s.case("library_verifies_reference_elgamal_proof", key.clone(), true, d.clone());
+                        s.case("library_elgamal_proof_bytes_as_documented", key.clone(), layout, d.clone());
+                        s.case("library_decrypts_reference_elgamal", key.clone(), pt == expect_pt && plain == expect_pt, d.clone());
+                        s.case("library_refuses_reference_elgamal_proof_with_other_challenge", key.clone(), other_refused, d);
+                    }
+                }
+            } else {
+                s.case("reference_accepts_library_public_key", key.clone(), false, det.clone());
+            }
+            // ---- library proves, reference recomputes the challenge from the public components
+            let r = enc_catch(|| pk.encrypt_key_el_gamal_with_proof(&SecretKey::<C>(enc_lib_scalar(msg_scalar))).map_err(|e| format!("{e:?}")));
+            match r {
+                Err(()) => s.case("library_elgamal_prove_panicked", key, false, det),
+                Ok(Err(e)) => {
+                    let mut d = det.clone();
+                    d["observed"] = json!(e);
+                    s.case("library_elgamal_prove_succeeds", key, false, d);
+                }
+                Ok(Ok(p)) => {
+                    let (c1, c2) = (enc_pk_bytes(&p.ciphertext.c1), enc_pk_bytes(&p.ciphertext.c2));
+                    let (zm, zb, c) = (enc_ref_scalar(&p.message_proof), enc_ref_scalar(&p.blinder_proof), enc_ref_scalar(&p.challenge));
+                    let mut d = det.clone();
+                    d["lib_proof"] = json!({"c1": gen::hx(&c1), "c2": gen::hx(&c2), "message_proof": gen::hs(&zm), "blinder_proof": gen::hs(&zb), "challenge": gen::hs(&c)});
+                    let c_ref = enc_eg_recompute(G1, &pkb, &c1, &c2, &zm, &zb, &c);
+                    d["observed"] = json!({"reference_challenge": c_ref.map(|x| gen::hs(&x))});
+                    s.case("reference_challenge_equals_library_elgamal_challenge", key.clone(), c_ref == Some(c), d.clone());
+                    s.case("library_elgamal_proof_bytes_as_documented", format!("{key}|lib"), Vec::<u8>::from(&p) == enc_eg_wire(&c1, &c2, &zm, &zb, &c), d.clone());
+                    // reference decryption: c2 - sk*c1 == m * Hgen
+                    let dec = match (EncPt::decode(!G1, &c1), EncPt::decode(!G1, &c2)) {
+                        (Some(a), Some(bb)) => Some(bb.add(&a.mul(k).neg()).encode()),
+                        _ => None,
+                    };
+                    s.case("reference_decrypts_library_elgamal", key, dec == Some(expect_pt), d);
+                }
+            }
+        }
+
+        pub fn c18(s: &mut Search, rng: &mut Prng, thorough: bool) {
+            enc_c18_self_check(s);
+            let mut keys = vec![RScalar::ONE, -RScalar::ONE];
+            for _ in 0..(if thorough { 6 } else { 2 }) {
+                keys.push(rng.scalar());
+            }
+            let mut lens = vec![0usize, 31, 32, 33, 200];
+            if thorough {
+                lens.extend_from_slice(&[1, 30, 127, 128, 16383, 16384, 65536]);
+            }
+            let ids = enc_c13_ids(rng);
+            let mut n = 0usize;
+            for (ki, k) in keys.iter().enumerate() {
+                for scheme in 0..3u8 {
+                    for (li, &len) in lens.iter().enumerate() {
+                        if ki >= 2 && (li + ki + scheme as usize) % 3 != 0 {
+                            continue;
+                        }
+                        n += 1;
+                        let m = gen::message(rng, len);
+                        enc_c18_signcrypt(s, rng, k, scheme, &m);
+                        // every identifier class (incl. empty) with the first key, rotating afterwards
+                        if ki == 0 && li < 2 {
+                            for idb in &ids {
+                                enc_c18_timelock(s, rng, k, scheme, &m, idb);
+                            }
+                        } else {
+                            enc_c18_timelock(s, rng, k, scheme, &m, &ids[n % ids.len()]);
+                        }
+                        if li < 2 || thorough {
+                            enc_c18_pok(s, rng, k, scheme, &m);
+                        }
+                    }
+                }
+                let mut scalars = vec![RScalar::ONE, -RScalar::ONE, rng.scalar()];
+                if thorough {
+                    scalars.extend(gen::edge_scalars());
+                    scalars.push(rng.scalar());
+                }
+                for ms in scalars {
+                    enc_c18_elgamal(s, rng, k, &ms);
+                }
+            }
+        }
     };
 }
